@@ -303,6 +303,40 @@ class _Traced(Contract):
         st.check("P3:the-exception-is-recorded-as-the-outcome", z3.BoolVal(bool(ok)))
 
 
+class ArgumentsTraceOf(Contract):
+    """ArgumentsTrace.of(*args, **kwargs) is handed the traced function's own arguments: whatever the caller's keywords are
+    called, building the record must not fail before the function is even called (the callee assumption of the traced
+    wrappers: "ArgumentsTrace.of never raises")."""
+    file, func, name = "helpers/tracing.py", "ArgumentsTrace.of", "C18/tracing:ArgumentsTrace.of"
+    props = ("C18",)
+    assumptions = ("constructing the record itself (State.__init__ with Sequence[Any] / Mapping[str, Any] | Missing attributes) "
+                   "accepts every tuple / keyword dict: instance of C05",)
+
+    def instantiate(self, it, info, cargs, node):
+        self.built.append(cargs)
+        return it.st.alloc(info.cid)
+
+    def global_value(self, it, mod, name):
+        if name == "MISSING":
+            return it.st.sym_ref("MISSING", "object")
+        return None
+
+    def setup(self, it, env):
+        st = it.st
+        self.built = []
+        info = repo_class(it, "helpers/tracing.py", "ArgumentsTrace")
+        self.args = sym_tuple(it, "args")
+        self.kwargs = st.sym_ref("kwargs", "dict")
+        f = it.class_attr(info, "of", V.VCls(z3.IntVal(info.cid)))
+        return st.fun_of(f), CallArgs(star=self.args, starstar=self.kwargs)
+
+    def on_return(self, it, ret):
+        it.st.check("P3:one-record-is-built-from-the-callers-arguments", z3.BoolVal(len(self.built) == 1))
+
+    def on_raise(self, it, exc):
+        it.st.check("P3:recording-the-arguments-never-fails-whatever-the-callers-keywords-are-called", z3.BoolVal(False))
+
+
 class TracedSync(_Traced):
     file, func, name = TRACE, "_traced_sync.traced", "C18/tracing:_traced_sync.traced"
 
@@ -496,5 +530,5 @@ class MimicSites(Lemma):
                     note="; ".join(missing))
 
 
-CONTRACTS = [ExecCall(), ExecMethod(), ExecGet(), WrapAsync(), WrapAsyncFactory(), TracedSync(), TracedAsync(), MimicSync(),
+CONTRACTS = [ExecCall(), ExecMethod(), ExecGet(), WrapAsync(), WrapAsyncFactory(), TracedSync(), TracedAsync(), ArgumentsTraceOf(), MimicSync(),
              MimicAsync(), MimicSites()]
